@@ -184,8 +184,7 @@ struct Probe : public OSSPSReconstruction<T>
         // function through its public API instead, at the image the property prescribes.
         shared_ptr<T> x(cur.get_empty_copy());
         unflat(*x, r.before);
-        if (r.k == this->get_start_subiteration_num())
-          this->objective_function_sptr->fill_nonidentifiable_target_parameters(*x, 0);
+        this->objective_function_sptr->fill_nonidentifiable_target_parameters(*x, 0);
         shared_ptr<T> g(cur.get_empty_copy());
         this->objective_function_sptr->compute_sub_gradient(*g, *x, r.subset);
         r.have_g = true;
@@ -619,13 +618,12 @@ emit_step(const Case& c, const StepRec& r, const V& d0, int start, bool levelB, 
         ofail("iterate outside [0, upper bound]: voxel " + std::to_string(j) + " value " + vh::hex(r.after[j]) + " ub " + vh::hex(ubf));
         break;
       }
-  // (2) the gradient is taken at the current image (non-identifiable voxels zeroed at the first sub-iteration of a run), of the
+  // (2) the gradient is taken at the current image (non-identifiable voxels zeroed at the start of every sub-iteration), of the
   //     subset the schedule prescribes
   ++oracle_checks;
   {
     V expect = r.before;
-    if (r.k == start)
-      for (std::size_t j = 0; j < n; ++j)
+    for (std::size_t j = 0; j < n; ++j)
         if (sens0mask[j] != 0.F)
           expect[j] = 0.F;
     if (!same_bits(expect, gx))
